@@ -181,7 +181,89 @@ def classify(fn, loop):
                             if _edge_leaves(cfg, loop, (sb, tb)):
                                 loop.form, loop.why = "counter", "bounded counter advanced on every cycle"
                                 return
+    # ---- counter, general form: every cycle assigns the counter a provably larger value; the bound is loop-invariant ----
+    if _counter_general(fn, cfg, du, g, loop):
+        loop.form, loop.why = "counter", "the counter is assigned a strictly larger value on every cycle and compared with a loop-invariant bound"
+        return
     loop.form = None
+
+
+def _on_every_cycle_set(cfg, loop, blocks):
+    """every cycle header -> ... -> header inside the loop passes through at least one of `blocks`"""
+    blocks = set(blocks)
+    if loop.header in blocks:
+        return True
+    seen = set()
+    stack = [s for s in cfg.succ[loop.header] if s in loop.body and s not in blocks]
+    while stack:
+        n = stack.pop()
+        if n == loop.header:
+            return False
+        if n in seen:
+            continue
+        seen.add(n)
+        for s in cfg.succ[n]:
+            if s in loop.body and s not in blocks:
+                stack.append(s)
+    return True
+
+
+def _counter_general(fn, cfg, du, g, loop):
+    from .numeric import numeric_of
+    from .guards import value_kills
+    num = numeric_of(fn, du, g)
+    for sb in sorted(loop.body):
+        st = cfg.blocks[sb]["term"]
+        if st["k"] != "switch":
+            continue
+        v = strip_casts(du.val_operand(st["discr"]))
+        if v[0] != "binop" or v[1] not in ("Lt", "Le", "Gt", "Ge"):
+            continue
+        if not any(_edge_leaves(cfg, loop, (sb, tb)) for _, tb in st["targets"] + [[None, st["otherwise"]]]):
+            continue
+        for cnt, bound, cnt_is_left in ((strip_casts(v[2]), strip_casts(v[3]), True), (strip_casts(v[3]), strip_casts(v[2]), False)):
+            if cnt[0] != "place" or cnt[1][1]:
+                continue
+            # the loop continues while counter < bound (counter on the smaller side: it must grow),
+            # or while counter > bound (counter on the larger side: it must shrink)
+            smaller_left = v[1] in ("Lt", "Le")
+            grows = (smaller_left == cnt_is_left)
+            i = cnt[1][0]
+            # bound is loop-invariant
+            inv = True
+            for kind, x in value_kills(bound):
+                if kind == "place":
+                    for bid, idx, pk, wk in du.writes:
+                        if bid in loop.body and pk[0] == x[0] and (pk == x or not pk[1] or not x[1] or pk[1][:len(x[1])] == x[1] or x[1][:len(pk[1])] == pk[1]):
+                            inv = False
+                else:
+                    # a call re-evaluated in the loop (e.g. len()) is invariant when its argument places are
+                    pass
+            if not inv:
+                continue
+            # every write to the counter inside the loop is a strict increase
+            wblocks = []
+            ok = True
+            for bid, idx, pk, wk in du.writes:
+                if pk[0] != i or bid not in loop.body:
+                    continue
+                if pk[1] or wk != "assign":
+                    ok = False
+                    break
+                rv = du.blocks[bid]["stmts"][idx]["rv"]
+                e = du.val_rvalue(rv, 0, bid)
+                num.ignore_write = (bid, idx)
+                try:
+                    inc = num.prove_le(("place", (i, ())), e, -1, bid) if grows else num.prove_le(e, ("place", (i, ())), -1, bid)
+                finally:
+                    num.ignore_write = None
+                if not inc:
+                    ok = False
+                    break
+                wblocks.append(bid)
+            if ok and wblocks and _on_every_cycle_set(cfg, loop, wblocks):
+                return True
+    return False
 
 
 SHRINKING = ("std::string::String::from_utf8", "::unwrap", "::expect", "as std::convert::From<", "std::ops::Deref>::deref", "::as_slice", "::as_str", "::as_bytes",
